@@ -72,8 +72,8 @@ func init() {
 		Explanation: "Decides structural necessary conditions of 'compressed tables decode to the same actions': GUARD(usedBase): every freshly chosen displacement base in allocator.place reaches a return only through the not-used outcome of usedBase.Get(delta+base), and the base is recorded (two rows with one base decode each other's cells). " +
 			"GUARD(dedupe): a cached base is reused only when the bounds check held and value+check column were compared. CODEC(optimize): every value stored into a row is error(-1), shift(-2-state), a rule index or the unfilled sentinel; under defaultReduce the sentinel is -K-len(Action), K>=2 (distinct from every shift code, the nonassoc error and rule indices), and only cells equal to the sentinel receive the default reduction. " +
 			"MUSTPASS(compile-order): populateTables < resolveWithLookahead < reportConflicts < minimize < Optimize. GUARD(optimize-la): Optimize is not run on tables holding deep-lookahead pointers. RESET(histogram): a counter slice reused across states (Optimize's reuse, pickDefault's parameter) is zeroed inside the iteration before it is bumped and read back. LOOPBOUND: no element-by-element scan in lalr/ or util/container (the bit sets the row packer searches) stops short of its slice. OPTIONMAP: each option key of the grammar file sets its own Options field (defaultReduce and optimizeTables are switched on only by their own keys). " +
-			"Not decided: full functional equality of the two encodings, pickDefault's choice. AGREE(option-plumbing): every field of the lalr.Options literal in compileParser that is filled from grammar.Options/compiler.Params is filled from the field of the same name (defaultReduce is not switched on by a neighbouring option). CODEC(default-fallback): every decode site of the displacement encoding in the generated Go parsers reads the row default (tmDefAct/tmDefGoto) on the failing edge of the tmCheck owner test.",
-		Rules: []string{"GUARD(usedBase)", "GUARD(dedupe)", "CODEC(optimize)", "MUSTPASS(compile-order)", "GUARD(optimize-la)", "OPTIONMAP", "LOOPBOUND", "RESET(histogram)", "AGREE(option-plumbing)", "CODEC(default-fallback)"},
+			"Not decided: full functional equality of the two encodings, pickDefault's choice. AGREE(option-plumbing): every field of the lalr.Options literal in compileParser that is filled from grammar.Options/compiler.Params is filled from the field of the same name (defaultReduce is not switched on by a neighbouring option). CODEC(default-fallback): every decode site of the displacement encoding in the generated Go parsers reads the row default (tmDefAct/tmDefGoto) on the failing edge of the tmCheck owner test. CODEC(parser) as in C01: every read of the packed table in the generated parsers (main loop, gotoState, reduceAll, lookahead) is guarded by 0 <= pos < tmTableLen - cell 0 included.",
+		Rules: []string{"GUARD(usedBase)", "GUARD(dedupe)", "CODEC(optimize)", "MUSTPASS(compile-order)", "GUARD(optimize-la)", "OPTIONMAP", "LOOPBOUND", "RESET(histogram)", "AGREE(option-plumbing)", "CODEC(default-fallback)", "CODEC(parser)"},
 		Run: func(c *Ctx) {
 			ruleUSEDBASE(c)
 			ruleDEDUPE(c)
@@ -84,6 +84,7 @@ func init() {
 			ruleRESET(c, "lalr")
 			ruleOPTPLUMBING(c)
 			ruleDEFAULTFALLBACK(c)
+			ruleTABLEIDX(c)
 		},
 	})
 	register(&Property{
@@ -326,14 +327,15 @@ func init() {
 		ID: "C02",
 		Explanation: "Decides structural necessary conditions of 'listener events reproduce the derivation' on every case of every committed generated applyRule: STACKIDX: each stack reference stack[len(stack)-K] / stack[len(stack)-A:len(stack)-B] of case i lies inside the tmRuleLen[i] symbols of rule i (inside the prefix for mid-rule nonterminals), ranges are non-empty, fixTrailingWS gets exactly the whole right-hand side. " +
 			"GUARD(markerfree) and LOOPSHAPE(marker-transparent): state markers never count as symbols and never stop a scan of the right-hand side (HasTrailingNulls decides whether trailing whitespace is trimmed). VARIANT(trim-trailing-empty): all trailing empty symbols are trimmed from a node's range. SIBLING(list-recursion): every recursive list rule built by Expand is left-recursive unless the list is flagged right-recursive (elements are reported in source order). TYPESTATE(lookahead): the offset given to an empty node (p.next.offset) is read only while the lookahead is fetched, never after it was consumed by a shift. FIELDROLE(input): each branch on a flag of syntax.Input reads the flag its audited role names (node types are collected from non-Synthetic inputs; NoEoi is a different bool on the same record). " +
-			"Not decided: that the range is the right sub-range, post-order, node types; list expansion order. SOURCE(identity): every generated lexer's Init keeps the caller's string in l.source unmodified (reported ranges are offsets into the caller's text; a byte-order mark is skipped by moving the offset). LOOPSHAPE(marker-transparent) also rejects a marker test on one fixed position of a right-hand side outside a loop. TMPL(switch-guard): every grammar predicate that can make a case arm of applyRule appear (HasTrailingNulls for the fixTrailingWS arm) also feeds the guard under which `switch rule {` is generated. BOUND(trim-floor): the loops stripping trailing empty symbols go down to index 1 in reportRange (rhs[0] is read afterwards) and to index 0 in parse()/fixTrailingWS. FIELDCOV(minimize): the rule-class key of DFA minimisation contains whether a rule ends with a nullable symbol, so reduce states of rules whose ranges are trimmed (fixTrailingWS is selected by rule number) are not merged with those of rules that are not.",
-		Rules: []string{"STACKIDX", "GUARD(markerfree)", "LOOPSHAPE(marker-transparent)", "VARIANT", "SIBLING(list-recursion)", "TYPESTATE(lookahead)", "FIELDROLE(input)", "SOURCE(identity)", "TMPL(switch-guard)", "BOUND(trim-floor)", "FIELDCOV(minimize)"},
+			"Not decided: that the range is the right sub-range, post-order, node types; list expansion order. SOURCE(identity): every generated lexer's Init keeps the caller's string in l.source unmodified (reported ranges are offsets into the caller's text; a byte-order mark is skipped by moving the offset). LOOPSHAPE(marker-transparent) also rejects a marker test on one fixed position of a right-hand side outside a loop. TMPL(switch-guard): every grammar predicate that can make a case arm of applyRule appear (HasTrailingNulls for the fixTrailingWS arm) also feeds the guard under which `switch rule {` is generated. BOUND(trim-floor): the loops stripping trailing empty symbols go down to index 1 in reportRange (rhs[0] is read afterwards) and to index 0 in parse()/fixTrailingWS. FIELDCOV(minimize): the rule-class key of DFA minimisation contains whether a rule ends with a nullable symbol, so reduce states of rules whose ranges are trimmed (fixTrailingWS is selected by rule number) are not merged with those of rules that are not. LOOPCARRY(deep-lookahead) as in C07.",
+		Rules: []string{"STACKIDX", "GUARD(markerfree)", "LOOPSHAPE(marker-transparent)", "VARIANT", "SIBLING(list-recursion)", "TYPESTATE(lookahead)", "FIELDROLE(input)", "SOURCE(identity)", "TMPL(switch-guard)", "BOUND(trim-floor)", "FIELDCOV(minimize)", "LOOPCARRY(deep-lookahead)"},
 		Run: func(c *Ctx) {
 			rulePEEK(c)
 			ruleSWITCHGUARD(c)
 			ruleSOURCEID(c)
 			ruleFIELDROLE(c)
 			ruleTRIMFLOOR(c)
+			ruleDEEPLACOPY(c)
 			ruleMINIMIZE(c)
 			ruleSTACKIDX(c)
 			ruleMARKERFREE(c)
@@ -396,14 +398,15 @@ func init() {
 		ID: "C07",
 		Explanation: "Decides structural necessary conditions of 'LALR(k) resolution never changes the language': CODEC(deep-pointer): lookahead pointers are encoded as -3-offset by every writer (trie emitter, populateTables, the Lalr patch) and decoded as -action-3 by every reader (Optimize, minimize's partitioning, each generated lalr()), and generated parse loops treat action < -2 as a pointer. MUSTPASS(trie-id): a minimized trie node receives its id before it is published in the shared cache. " +
 			"DTX(resolved-flag): a conflict is marked resolved only if no lookahead terminal failed (the flag only moves from true to false inside the terminal loop); UsedLADepth is raised with every patched pointer. GUARD(optimize-la): tables with pointers are not handed to Optimize. ORDER: the trie's map iterations are sorted (C18). GUARD(terminal-follow): both phases of buildLA (in-rule and cross-rule) contribute to the follow sets of terminal transitions when follow sets hold transitions (k>1). LOOPSHAPE(collect-all): the loops that gather a rule's transitions on the conflict terminal run to exhaustion. WHOCALLS(Lexer.Next): the deep-lookahead loop (like every parser-side fetch) reads tokens through the filter that drops injected comment/invalid tokens. " +
-			"Not decided: soundness of the trie (which rule a lookahead string selects). MUSTPASS(compile-order): lookahead resolution runs after the tables are populated and before conflicts are reported. MUSTPASS(trie-id) also requires the id counter to be a field of the builder that owns the cross-conflict cache; GUARD(terminal-follow) requires the terminal case of the cross-rule phase to sit in the same backward walk as the nonterminal case. LOSTWRITE(range-copy): a store into a field of a `for _, e := range` copy of a struct element is read later in the iteration or written back (the minimised child of a lookahead-trie node reaches n.edges[i].child). SIGNATURE(lalr-cell) as in C06: when the DFA is minimised, references to deep-lookahead automata stay part of a state's signature. PROPAGATE(unresolved): in trieBuilder.resolve a nil answer of the recursive call returns nil for the whole node (a conflict is resolved only if every continuation is).",
-		Rules: []string{"CODEC(deep-pointer)", "MUSTPASS(trie-id)", "DTX(resolved-flag)", "GUARD(optimize-la)", "GUARD(terminal-follow)", "WHOCALLS(Lexer.Next)", "LOOPSHAPE(collect-all)", "MUSTPASS(compile-order)", "LOSTWRITE(range-copy)", "SIGNATURE(lalr-cell)", "PROPAGATE(unresolved)"},
+			"Not decided: soundness of the trie (which rule a lookahead string selects). MUSTPASS(compile-order): lookahead resolution runs after the tables are populated and before conflicts are reported. MUSTPASS(trie-id) also requires the id counter to be a field of the builder that owns the cross-conflict cache; GUARD(terminal-follow) requires the terminal case of the cross-rule phase to sit in the same backward walk as the nonterminal case. LOSTWRITE(range-copy): a store into a field of a `for _, e := range` copy of a struct element is read later in the iteration or written back (the minimised child of a lookahead-trie node reaches n.edges[i].child). SIGNATURE(lalr-cell) as in C06: when the DFA is minimised, references to deep-lookahead automata stay part of a state's signature. PROPAGATE(unresolved): in trieBuilder.resolve a nil answer of the recursive call returns nil for the whole node (a conflict is resolved only if every continuation is). LOOPCARRY(deep-lookahead): in the generated parsers the scratch copy of the lexer/stream from which an lalr(k) decision reads further tokens is made outside the loop that consumes from it.",
+		Rules: []string{"CODEC(deep-pointer)", "MUSTPASS(trie-id)", "DTX(resolved-flag)", "GUARD(optimize-la)", "GUARD(terminal-follow)", "WHOCALLS(Lexer.Next)", "LOOPSHAPE(collect-all)", "MUSTPASS(compile-order)", "LOSTWRITE(range-copy)", "SIGNATURE(lalr-cell)", "PROPAGATE(unresolved)", "LOOPCARRY(deep-lookahead)"},
 		Run: func(c *Ctx) {
 			ruleCOLLECTALL(c)
 			ruleWHOCALLS(c)
 			ruleTERMFOLLOW(c)
 			ruleLALRK(c)
 			ruleTRIEUNRESOLVED(c)
+			ruleDEEPLACOPY(c)
 			ruleLOSTWRITE(c, "lalr")
 			ruleSIGCELL(c)
 			ruleCOMPILEORDER(c)
